@@ -848,6 +848,11 @@ def run(chk):
     from . import rules_C11, report
 
     report.include_rules(chk, r2, rules_C11, ("C11.R1",), "the router's answer depends only on the key and the current rotation (no memo, no process state)")
+    # single-key and many-key operations see the same rotation only if each of them brings due servers back first: the
+    # revival scan belongs to the router every operation goes through (C13.R4 decides where it runs and what it re-arms)
+    from . import rules_C13
+
+    report.include_rules(chk, r2, rules_C13, ("C13.R4",), "servers that are due come back into rotation before any operation is routed, single-key or many-key alike")
 
     # ------------------------------------------------------------------ R3 / R4 batches
     r3 = chk.rule("C12.R3", "batching: each key is inserted exactly once, under the inner key, into the batch of the server its own routing call returned; skipped only when no server is left; each batch dispatched once to that server's client")
